@@ -17,8 +17,9 @@ LEVEL = "exploration"
 BUDGET = {"quick": 40, "thorough": 600}
 EVIDENCE = {
     "rule": "a real ThreadedTaskDispatcher driven by 1-3 simulated submitter threads (<= 12 tasks; task bodies sleep, "
-            "raise Exception/BaseException, or submit a follow-up task), 1-3 workers, up to 3 set_thread_count calls and at most "
-            "one shutdown(cancel_pending, timeout) at a seeded point; scheduler: random walk over lock/condition "
+            "raise Exception/BaseException, or submit a follow-up task), 1-3 workers, up to 3 set_thread_count calls (some back to "
+            "back) and at most one shutdown(cancel_pending, timeout) at a seeded point, in a third of those runs with a second "
+            "controlling thread resizing the pool around the same time; scheduler: random walk over lock/condition "
             "operations and source lines of task.py; the queue is observed through a recording deque (append / pop "
             "order under the dispatcher's own lock); distinct = distinct history digest; non-trivial = >= 2 tasks and "
             ">= 1 context switch between two pool operations",
@@ -110,12 +111,21 @@ def gen(W):
         subs.append(ops)
     ctl = []
     for _ in range(W.draw(4)):
-        ctl.append(["sleep", W.choice([0.0001, 0.001, 0.02, 0.2])])
+        # (0.0: the next call follows at once, while workers told to stop are still on their way out)
+        ctl.append(["sleep", W.choice([0.0001, 0.001, 0.02, 0.2, 0.0])])
         ctl.append(["resize", 1 + W.draw(3)])
     sc["shutdown"] = None
+    sc["ctl2"] = []
     if W.chance(0.6):
-        ctl.append(["sleep", W.choice([0.0, 0.0003, 0.004, 0.05, 0.5])])
+        pause = W.choice([0.0, 0.0003, 0.004, 0.05, 0.5])
+        ctl.append(["sleep", pause])
         ctl.append(["shutdown", bool(W.draw(2)), W.choice([5, 0.05, 0.0])])
+        if W.chance(0.35):
+            # a second controlling thread resizes the pool around the time of the shutdown
+            t0 = sum(op[1] for op in ctl if op[0] == "sleep")
+            sc["ctl2"] = [["sleep", max(0.0, t0 + W.choice([0.0, -0.0001, 0.0001, 0.001]))], ["resize", 1 + W.draw(3)]]
+            if W.chance(0.4):
+                sc["ctl2"] += [["sleep", W.choice([0.0, 0.0002])], ["resize", 1 + W.draw(3)]]
     sc["subs"] = subs
     sc["ctl"] = ctl
     sc["sched"] = {"kind": W.choice(["walk", "rtb"], p0=0.8), "gap_mean": W.choice([2, 5, 15, 50])}
@@ -179,6 +189,8 @@ def run_one(tapes, tier, scenario=None):
             k.spawn("s%d" % i, submitter, (ops,), kind="submitter")
         if sc["ctl"]:
             k.spawn("ctl", controller, (sc["ctl"],), kind="ctl")
+        if sc.get("ctl2"):
+            k.spawn("ctl2", controller, (sc["ctl2"],), kind="ctl")
 
         def on_finish(k):
             snap["queue"] = [t.tid for t in disp.queue]
@@ -253,7 +265,7 @@ def run_one(tapes, tier, scenario=None):
     if popped != appended[:len(popped)]:
         res.v("order", "pop_order", "queue pops %r are not a prefix of appends %r" % (popped, appended))
     # start order lag
-    maxw = max([sc["workers"]] + [op[1] for op in sc["ctl"] if op[0] == "resize"])
+    maxw = max([sc["workers"]] + [op[1] for op in sc["ctl"] + sc.get("ctl2", []) if op[0] == "resize"])
     started = set()
     for tid in begun:
         idx = appended.index(tid) if tid in appended else None
@@ -297,7 +309,8 @@ def run_one(tapes, tier, scenario=None):
                     if cancelled.count(tid):
                         res.v("exactly_once", "cancelled_without_cancel_pending", "task %r cancelled although cancel_pending=False" % (tid,))
             if shutdown_done is not None:
-                if alive_workers:
+                if alive_workers and not sc.get("ctl2"):
+                    # (with a resize racing the shutdown the final size of the pool is not determined)
                     res.v("shutdown", "worker_left", "%d worker(s) still alive at quiescence after shutdown: %r" % (len(alive_workers), alive_workers))
                 if cancel_pending:
                     left = [t for t in (snap.get("queue") or []) if t in before]
